@@ -74,7 +74,7 @@ theorem push_push (a b : List Run) (x : Style × Except DecErr (List Run)) : pus
 
 /-- the decoder's loop from state `st` on input `s` with pending text `acc` -/
 def R (cfg : Cfg) (st : Style) (s acc : List Char) : Style × Except DecErr (List Run) :=
-  decodeToks cfg st (tokAux cfg.sgrLazy s 0 acc)
+  decodeToks cfg st (tokAux cfg.sgrLazy (!cfg.oscStOnly) s 0 acc)
 
 theorem decodeToks_flush (cfg : Cfg) (st : Style) (acc : List Char) (toks : List Token) :
     decodeToks cfg st (flushPlain acc ++ toks) = push (flushRuns st acc) (decodeToks cfg st toks) := by
@@ -91,7 +91,7 @@ theorem decodeToks_flush (cfg : Cfg) (st : Style) (acc : List Char) (toks : List
 
 theorem R_text (cfg : Cfg) (st : Style) (t rest acc : List Char) (ht : ∀ c ∈ t, c ≠ ESC) :
     R cfg st (t ++ rest) acc = R cfg st rest (acc ++ t) := by
-  simp [R, tokAux_plain cfg.sgrLazy t rest acc ht]
+  simp [R, tokAux_plain cfg.sgrLazy (!cfg.oscStOnly) t rest acc ht]
 
 theorem R_nil (cfg : Cfg) (st : Style) (acc : List Char) :
     R cfg st [] acc = push (flushRuns st acc) (st, .ok []) := by
@@ -104,8 +104,8 @@ theorem R_sgr (cfg : Cfg) (st st' : Style) (body rest acc : List Char) (codes : 
     (hc : sgrCodes cfg body = .ok codes) (ha : applyCodes cfg st codes 0 = (st', none)) :
     R cfg st (sgrOpen body ++ rest) acc = push (flushRuns st acc) (R cfg st' rest []) := by
   have hemp : body.isEmpty = false := by cases body <;> simp at hne ⊢
-  have ht : tokAux cfg.sgrLazy (sgrOpen body ++ rest) 0 acc = flushPlain acc ++ .sgr body :: tokAux cfg.sgrLazy rest 0 [] := by
-    have := tokAux_sgr cfg.sgrLazy body rest acc hb
+  have ht : tokAux cfg.sgrLazy (!cfg.oscStOnly) (sgrOpen body ++ rest) 0 acc = flushPlain acc ++ .sgr body :: tokAux cfg.sgrLazy (!cfg.oscStOnly) rest 0 [] := by
+    have := tokAux_sgr cfg.sgrLazy (!cfg.oscStOnly) body rest acc hb
     simpa [sgrOpen] using this
   unfold R
   rw [ht, decodeToks_flush]
@@ -115,28 +115,62 @@ theorem R_sgr (cfg : Cfg) (st st' : Style) (body rest acc : List Char) (codes : 
 
 /-- an OSC 8 sequence `ESC ] 8 ; params ; link ESC \` -/
 theorem R_osc8 (cfg : Cfg) (st : Style) (params link rest acc : List Char)
-    (hp : ∀ c ∈ params, c ≠ ESC ∧ c ≠ '\n' ∧ c ≠ ';') (hl : ∀ c ∈ link, c ≠ ESC ∧ c ≠ '\n') :
+    (hp : ∀ c ∈ params, c ≠ ESC ∧ c ≠ '\n' ∧ c ≠ ';' ∧ c ≠ BEL) (hl : ∀ c ∈ link, c ≠ ESC ∧ c ≠ '\n' ∧ c ≠ BEL) :
     R cfg st ([ESC, ']', '8', ';'] ++ params ++ ';' :: link ++ [ESC, '\\'] ++ rest) acc =
       push (flushRuns st acc) (R cfg (Style.updateLink cfg.sv st (linkOrNone link)) rest []) := by
-  have hbody : ∀ c ∈ '8' :: ';' :: (params ++ ';' :: link), c ≠ ESC ∧ c ≠ '\n' := by
+  have hbody : ∀ c ∈ '8' :: ';' :: (params ++ ';' :: link), c ≠ ESC ∧ c ≠ '\n' ∧ c ≠ BEL := by
     intro c hc
     simp only [List.mem_cons, List.mem_append] at hc
     rcases hc with rfl | rfl | hc | rfl | hc
     · decide
     · decide
-    · exact ⟨(hp c hc).1, (hp c hc).2.1⟩
+    · exact ⟨(hp c hc).1, (hp c hc).2.1, (hp c hc).2.2.2⟩
     · decide
     · exact hl c hc
-  have ht : tokAux cfg.sgrLazy ([ESC, ']', '8', ';'] ++ params ++ ';' :: link ++ [ESC, '\\'] ++ rest) 0 acc =
-      flushPlain acc ++ .osc ('8' :: ';' :: (params ++ ';' :: link)) :: tokAux cfg.sgrLazy rest 0 [] := by
-    have := tokAux_osc cfg.sgrLazy ('8' :: ';' :: (params ++ ';' :: link)) rest acc hbody
+  have ht : tokAux cfg.sgrLazy (!cfg.oscStOnly) ([ESC, ']', '8', ';'] ++ params ++ ';' :: link ++ [ESC, '\\'] ++ rest) 0 acc =
+      flushPlain acc ++ .osc ('8' :: ';' :: (params ++ ';' :: link)) :: tokAux cfg.sgrLazy (!cfg.oscStOnly) rest 0 [] := by
+    have := tokAux_osc cfg.sgrLazy (!cfg.oscStOnly) ('8' :: ';' :: (params ++ ';' :: link)) rest acc hbody
     simpa using this
   have hpart : partitionAt ';' (params ++ ';' :: link) = (params, true, link) := by
     clear ht hbody
     induction params with
     | nil => simp [partitionAt]
     | cons c r ih =>
-      have hc := (hp c (by simp)).2.2
+      have hc := (hp c (by simp)).2.2.1
+      simp only [List.cons_append, partitionAt, hc, if_false]
+      rw [ih (fun x hx => hp x (by simp [hx]))]
+  unfold R
+  rw [ht, decodeToks_flush]
+  congr 1
+  simp only [decodeToks, decodeTok, List.isEmpty_cons, Bool.false_eq_true, if_false, dropPrefix?, beq_self_eq_true,
+    if_true, hpart]
+  exact push_nil _
+
+/-- repaired (F33): an OSC 8 sequence ended by BEL, `ESC ] 8 ; params ; link BEL` -/
+theorem R_osc8_bel (cfg : Cfg) (hb : cfg.oscStOnly = false) (st : Style) (params link rest acc : List Char)
+    (hp : ∀ c ∈ params, c ≠ ESC ∧ c ≠ '\n' ∧ c ≠ ';' ∧ c ≠ BEL) (hl : ∀ c ∈ link, c ≠ ESC ∧ c ≠ '\n' ∧ c ≠ BEL) :
+    R cfg st ([ESC, ']', '8', ';'] ++ params ++ ';' :: link ++ [BEL] ++ rest) acc =
+      push (flushRuns st acc) (R cfg (Style.updateLink cfg.sv st (linkOrNone link)) rest []) := by
+  have hbody : ∀ c ∈ '8' :: ';' :: (params ++ ';' :: link), c ≠ ESC ∧ c ≠ '\n' ∧ c ≠ BEL := by
+    intro c hc
+    simp only [List.mem_cons, List.mem_append] at hc
+    rcases hc with rfl | rfl | hc | rfl | hc
+    · decide
+    · decide
+    · exact ⟨(hp c hc).1, (hp c hc).2.1, (hp c hc).2.2.2⟩
+    · decide
+    · exact hl c hc
+  have ht : tokAux cfg.sgrLazy (!cfg.oscStOnly) ([ESC, ']', '8', ';'] ++ params ++ ';' :: link ++ [BEL] ++ rest) 0 acc =
+      flushPlain acc ++ .osc ('8' :: ';' :: (params ++ ';' :: link)) :: tokAux cfg.sgrLazy (!cfg.oscStOnly) rest 0 [] := by
+    have := tokAux_osc_bel cfg.sgrLazy ('8' :: ';' :: (params ++ ';' :: link)) rest acc hbody
+    rw [hb]
+    simpa using this
+  have hpart : partitionAt ';' (params ++ ';' :: link) = (params, true, link) := by
+    clear ht hbody
+    induction params with
+    | nil => simp [partitionAt]
+    | cons c r ih =>
+      have hc := (hp c (by simp)).2.2.1
       simp only [List.cons_append, partitionAt, hc, if_false]
       rw [ih (fun x hx => hp x (by simp [hx]))]
   unfold R
